@@ -10,6 +10,8 @@ from ..cfg import cfg_of, events_per_iteration
 from ..dataflow import reaching, value_sources
 from ..model import AnalysisError, Program, norm_key, parent_of
 from ..report import Checker
+import sympy as sp
+from ..expr import Translator, equal
 
 EXPLANATION = (
     "Role-tag, path, def-use and table rules over data_wrangler.py and regex.py. Decided: (R1) component roles: "
@@ -75,6 +77,10 @@ def _arrange(ck: Checker, prog: Program):
             break
     want = {"E": "ew", "N": "ns", "Z": "vt"}
     seen = {}
+    if not chain:
+        _arrange_by_code(ck, prog, f, loops[0])
+        _arrange_callers(ck, prog)
+        return
     for node in chain:
         t = node.test
         okk = isinstance(t, ast.BoolOp) and isinstance(t.op, ast.And) and len(t.values) == 2
@@ -106,6 +112,60 @@ def _arrange(ck: Checker, prog: Program):
         ck.ok("C07.R1", q, "returns (ns, ew, vt)")
     else:
         ck.violation("C07.R1", q, "return order", f"returns {unparse(rets[0].value) if rets else None}; callers unpack (ns, ew, vt)", loc=f.loc())
+    _arrange_callers(ck, prog)
+
+
+def _arrange_by_code(ck: Checker, prog: Program, f, loop):
+    """Variant: components collected in a dict keyed by the channel's last letter."""
+    from ..pathtable import PathTable, literals, same_rel
+    from ..resolve import Resolver, canon
+    q = f.qualname
+    tr = unparse(loop.target)
+    leaves = PathTable(prog, f.module).leaves(loop.body)
+    keep = [l for l in leaves if l.exit == "fall"]
+    if len(keep) != 1 or any(l.exit not in ("fall", "raise") for l in leaves):
+        raise AnalysisError(f"{q}: component selection not recognised ({len(keep)} accepting paths)")
+    l = keep[0]
+    stores = [e for e in l.events if e[0] == "store" and id(e[3]) in l.store_at]
+    if len(stores) != 1:
+        raise AnalysisError(f"{q}: component selection not recognised (stores per trace: {len(stores)})")
+    base, code = l.store_at[id(stores[0][3])]
+    T = Translator()
+    ch = T.sym(f"{tr}.meta.channel")
+    gi, sl, NONE = sp.Function("getitem"), sp.Function("slice"), sp.Symbol("None")
+    codes = [gi(ch, sl(sp.Integer(-1), NONE, NONE)), gi(ch, sp.Integer(-1))]
+    if code not in codes or not base.is_Symbol:
+        raise AnalysisError(f"{q}: component key `{code}` is not the last letter of the channel name")
+    val_ok = stores[0][2] == sp.Function("from_trace")(T.sym("TimeSeries"), T.sym(tr))
+    lits = literals(l)
+    in_ = sp.Function("in_")
+    letters = sp.Tuple(sp.Symbol("'E'"), sp.Symbol("'N'"), sp.Symbol("'Z'"))
+    known = any(same_rel(x, sp.Eq(in_(code, p_), sp.true, evaluate=False)) for x in lits for p_ in _perms(letters))
+    nodup = any(same_rel(x, sp.Ne(in_(code, base), sp.true, evaluate=False)) for x in lits)
+    if val_ok and known:
+        for sfx, var in (("E", "ew"), ("N", "ns"), ("Z", "vt")):
+            ck.ok("C07.R1", q, f"suffix {sfx!r} -> {var}", detail="selected by the channel name's last letter (keyed store)")
+    else:
+        ck.violation("C07.R1", q, "suffix coverage", f"a trace is stored under {code} without checking that it is one of E, N, Z (value ok: {val_ok})", loc=f.loc(loop))
+    if nodup and known:
+        ck.ok("C07.R2", q, "anything else raises (missing / duplicate / misnamed component)")
+    else:
+        ck.violation("C07.R2", q, "final else", "a trace that matches no free component does not raise", loc=f.loc())
+    rets = [r for r in own_nodes(f.node) if isinstance(r, ast.Return)]
+    R = Resolver(prog, f, keep={str(base)})
+    want = sp.Tuple(*[gi(base, sp.Symbol(f"'{c}'")) for c in ("N", "E", "Z")])
+    if len(rets) == 1 and canon(R.value(rets[0].value, rets[0])) == want:
+        ck.ok("C07.R1", q, "returns (ns, ew, vt)")
+    else:
+        ck.violation("C07.R1", q, "return order", f"returns {unparse(rets[0].value) if rets else None}; callers unpack (ns, ew, vt)", loc=f.loc())
+
+
+def _perms(t):
+    import itertools as _it
+    return [sp.Tuple(*p) for p in _it.permutations(list(t))]
+
+
+def _arrange_callers(ck: Checker, prog: Program):
     n = 0
     for r in ("_read_mseed", "_read_sac", "_read_gcf"):
         g = prog.func(f"data_wrangler.{r}")
@@ -434,47 +494,110 @@ def _read_single(ck: Checker, prog: Program):
             ck.violation("C07.R2", q, f"{p} rebound", f"`{p}` is rebound before it is handed to the readers", loc=f.loc())
 
 
+def _single_types(c, subject) -> Optional[set]:
+    """Types for which a predicate says 'one value for all files': isinstance(x, (A, B, type(None))) / x is None / or-combinations."""
+    truth, isin = sp.Function("truth"), sp.Function("isinstance")
+    if isinstance(c, sp.Or):
+        out = set()
+        for a in c.args:
+            t = _single_types(a, subject)
+            if t is None:
+                return None
+            out |= t
+        return out
+    if isinstance(c, sp.Eq) and c.rhs == sp.true and getattr(c.lhs, "func", None) == truth:
+        inner = c.lhs.args[0]
+        if getattr(inner, "func", None) == isin and inner.args[0] == subject:
+            ts = inner.args[1]
+            elems = list(ts) if isinstance(ts, sp.Tuple) else [ts]
+            out = set()
+            for e in elems:
+                if getattr(e, "func", None) == sp.Function("type") and e.args[0] == sp.Symbol("None"):
+                    out.add("None")
+                elif e.is_Symbol:
+                    out.add(e.name)
+                else:
+                    return None
+            return out
+        return None
+    if isinstance(c, sp.Eq) and {c.lhs, c.rhs} == {subject, sp.Symbol("None")}:
+        return {"None"}
+    return None
+
+
 def _read(ck: Checker, prog: Program):
+    from ..pathtable import PathTable, literals, flatten_cases, negate
     f = prog.func("data_wrangler.read")
     q = f.qualname
+    loops = [st for st in f.node.body if isinstance(st, ast.For) and isinstance(st.iter, ast.Call) and call_name(st.iter) == "zip"]
+    if len(loops) != 1 or len(loops[0].iter.args) != 3 or not isinstance(loops[0].target, ast.Tuple) or len(loops[0].target.elts) != 3:
+        raise AnalysisError(f"{q}: `for a, b, c in zip(<files>, <kwargs stream>, <orientation stream>)` not found")
+    lp = loops[0]
+    pt = PathTable(prog, f.module)
+    leaves = [l for l in pt.leaves(f.node.body) if id(lp) in l.snaps]
+    if not leaves:
+        raise AnalysisError(f"{q}: the loop over the files is not reached")
+    T0 = Translator()
+    want_types = {"obspy_read_kwargs": {"dict", "None"}, "degrees_from_north": {"int", "float", "None"}}
     n = 0
-    iters = {}
-    for st in f.node.body:
-        if isinstance(st, ast.If) and any(call_name(c) == "repeat" for c in calls_in(st)):
-            n += 1
-            t = st.test
-            subj = unparse(t.args[0]) if isinstance(t, ast.Call) and call_name(t) == "isinstance" and t.args else (
-                unparse(t.values[0].left) if isinstance(t, ast.BoolOp) and isinstance(t.values[0], ast.Compare) else unparse(t))
-            rep = [c for c in calls_in(ast.Module(body=st.body, type_ignores=[])) if call_name(c) == "repeat"]
-            other = [x for x in st.orelse if isinstance(x, ast.Assign)]
-            if len(rep) != 1 or len(other) != 1:
-                ck.violation("C07.R5", q, norm_key(st), "broadcast block is not `repeat(x)` / `x`", loc=f.loc(st))
-                continue
-            what = unparse(rep[0].args[0])
-            tgt = unparse(parent_of(rep[0]).targets[0]) if isinstance(parent_of(rep[0]), ast.Assign) else None
-            passthrough = unparse(other[0].value)
-            iters[tgt] = what
-            subj_names = {x.id for x in ast.walk(t) if isinstance(x, ast.Name)} & set(f.params)
-            if subj_names == {what} and passthrough == what and unparse(other[0].targets[0]) == tgt:
-                ck.ok("C07.R5", q, f"{tgt} = repeat({what}) iff the test on `{what}` says single value")
+    for pos, pname in ((1, "obspy_read_kwargs"), (2, "degrees_from_north")):
+        X = T0.sym(pname)
+        cases = []
+        for l in leaves:
+            env, nc = l.snaps[id(lp)]
+            v = Translator(env=env).tr(lp.iter.args[pos])
+            from ..pathtable import Leaf
+            cases += flatten_cases(literals(Leaf(l.conds[:nc], env, [])), v)
+        reps = (sp.Function("repeat")(X), sp.Function("repeat")(T0.sym("itertools"), X))
+        bad = None
+        seen_rep = seen_pass = False
+        for lits, v in cases:
+            if v in reps:
+                seen_rep = True
+                ts = [t for t in (_single_types(x, X) for x in lits) if t is not None]
+                if not ts:
+                    bad = f"`{pname}` is repeated for every file under {lits}: not a test of `{pname}` itself"
+                elif ts[0] != want_types[pname]:
+                    bad = f"`{pname}` is repeated for every file when it is one of {sorted(ts[0])}; single values are {sorted(want_types[pname])}"
+            elif v == X:
+                seen_pass = True
+                ts = [t for t in (_single_types(negate(x) if not isinstance(x, sp.Not) else x.args[0], X) for x in lits) if t is not None]
+                if not ts:
+                    bad = f"`{pname}` is used per file under {lits}: not a test of `{pname}` itself"
+                elif ts[0] != want_types[pname]:
+                    bad = f"`{pname}` is taken per file unless it is one of {sorted(ts[0])}; single values are {sorted(want_types[pname])}"
             else:
-                ck.violation("C07.R5", q, norm_key(st),
-                             f"`{what}` is repeated (or passed through as `{passthrough}`) depending on a test of `{sorted(subj_names)}`: a per-recording `{what}` given alone "
-                             f"would be handed whole to every file", loc=f.loc(st))
-    ck.floor("C07.R5", n, 2, "broadcast blocks in read()")
-    loops = [st for st in f.node.body if isinstance(st, ast.For)]
+                bad = f"the stream zipped for `{pname}` is {v}"
+        n += 1
+        if bad is None and seen_rep and seen_pass:
+            ck.ok("C07.R5", q, f"{pname}: repeat({pname}) iff it is a single value ({'/'.join(sorted(want_types[pname]))}), else taken per file")
+        else:
+            ck.violation("C07.R5", q, f"broadcast of {pname}",
+                         (bad or f"`{pname}` is not both broadcast (single value) and taken per file (sequence)") +
+                         f": a per-recording `{pname}` would be handed whole to every file (or a single value iterated)", loc=f.loc(lp))
+    ck.floor("C07.R5", n, 2, "broadcast decisions in read()")
+    # ---- forwarding
+    g = prog.func("data_wrangler.read_single")
+    tg = [unparse(e) for e in lp.target.elts]
+    cs = calls_in(lp, "read_single")
     good = False
-    if len(loops) == 1 and isinstance(loops[0].iter, ast.Call) and call_name(loops[0].iter) == "zip":
-        lp = loops[0]
-        zargs = [unparse(a) for a in lp.iter.args]
-        tg = [unparse(e) for e in lp.target.elts] if isinstance(lp.target, ast.Tuple) else []
-        cs = calls_in(lp, "read_single")
-        if len(cs) == 1 and len(zargs) == 3 and len(tg) == 3:
-            srcs = ["fnames", iters and [k for k, v in iters.items() if v == "obspy_read_kwargs"][0], iters and [k for k, v in iters.items() if v == "degrees_from_north"][0]]
-            good = zargs == srcs and unparse(cs[0].args[0]) == tg[0] and unparse(kwarg(cs[0], "obspy_read_kwargs")) == tg[1] \
-                and unparse(kwarg(cs[0], "degrees_from_north")) == tg[2]
-            app = [c for c in calls_in(lp, "append")]
-            good = good and len(app) == 1 and any(x is cs[0] for x in ast.walk(app[0])) and not any(isinstance(x, (ast.Break, ast.Continue)) for x in ast.walk(lp))
+    if len(cs) == 1 and unparse(lp.iter.args[0]) == "fnames":
+        b = bind_call(cs[0], g.params)
+        from ..resolve import Resolver, canon
+        R = Resolver(prog, f, inline=False)
+        st_call = cs[0]
+        while not isinstance(st_call, ast.stmt):
+            st_call = parent_of(st_call)
+        good = unparse(b.get(g.params[1])) == tg[1] and unparse(b.get(g.params[2])) == tg[2] if len(g.params) >= 3 and b.get(g.params[1]) is not None and b.get(g.params[2]) is not None else False
+        first = b.get(g.params[0])
+        good = good and isinstance(first, ast.Name) and first.id == tg[0]
+        app = [c for c in calls_in(lp, "append")]
+        good = good and len(app) == 1 and not any(isinstance(x, (ast.Break, ast.Continue)) for x in ast.walk(lp))
+        if good:
+            a_st = app[0]
+            while not isinstance(a_st, ast.stmt):
+                a_st = parent_of(a_st)
+            good = canon(R.value(app[0].args[0], a_st)).has(sp.Function("read_single")) or any(x is cs[0] for x in ast.walk(app[0]))
     if good:
         ck.ok("C07.R5", q, "zip(fnames, kwargs stream, orientation stream) -> read_single(fname, obspy_read_kwargs=., degrees_from_north=.) in order")
     else:
